@@ -192,7 +192,7 @@ Qed.
 
 Definition sattr_ok (u0 : option str) (a : qname * wvalue) : bool :=
   attr_name_ok (fst a) && value_names_ok (attr_conv a) && value_texts_ok (attr_conv a)
-  && negb (value_none (snd a)) && u0_differs u0 (fst (fst a)) && clark_ok a.
+  && negb (value_none (snd a)) && clark_ok a.
 
 Lemma value_atoms_nonempty v : value_none v = false -> value_atoms v <> [].
 Proof. destruct v as [|a|[|a l]]; cbn; intros H; try discriminate; discriminate. Qed.
@@ -206,7 +206,7 @@ Proof.
   induction ats as [|[qa v] ats IH]; intros m E A Hinv Hrel Hg; cbn [fold_attrs spec_attrs].
   - exists E. split; [reflexivity|split; [exact Hinv|split; [apply ext_refl|exact Hrel]]].
   - cbn [forallb] in Hg. apply andb_true_iff in Hg as [Ha Hg]. unfold sattr_ok in Ha.
-    apply andb_true_iff in Ha as [Ha Hck]. apply andb_true_iff in Ha as [Ha _].
+    apply andb_true_iff in Ha as [Ha Hck].
     apply andb_true_iff in Ha as [Ha Hnn]. apply andb_true_iff in Ha as [Ha _].
     apply andb_true_iff in Ha as [_ Hvn]. apply negb_true_iff in Hnn.
     unfold attr_conv in Hvn. cbn [fst snd] in *.
@@ -469,7 +469,7 @@ Definition from_value (u0 : option str) (q : qname) (ea : qname * list atom) : P
   exists v, snd ea = value_atoms v /\ dq_value u0 q v = true /\ value_names_ok v = true.
 
 Lemma node_says_core u0 pm mx q attrs E ekids kids_s e :
-  minv u0 pm -> minv u0 mx -> ext pm mx -> env_is e pm ->
+  (pm = [] \/ minv u0 pm) -> minv u0 mx -> ext pm mx -> env_is e pm ->
   Forall (am_entry_ok u0) attrs -> NoDup (map fst attrs) ->
   Forall2 (attr_rel mx) E attrs -> Forall (from_value u0 q) E ->
   (forall e', env_is e' (flush_map q attrs mx) -> says_list e' ekids (merge_text (map itree_of kids_s)) = true) ->
@@ -502,7 +502,7 @@ Qed.
 Lemma sattr_ok_wf u0 ats :
   forallb (sattr_ok u0) ats = true ->
   forallb (fun a => attr_name_ok (fst a) && value_names_ok (attr_conv a) && value_texts_ok (attr_conv a)
-                    && negb (value_none (snd a)) && u0_differs u0 (fst (fst a))) ats = true.
+                    && negb (value_none (snd a))) ats = true.
 Proof.
   intros H. apply forallb_forall. intros a Ha. rewrite forallb_forall in H. specialize (H a Ha).
   unfold sattr_ok in H. apply andb_true_iff in H as [H _]. exact H.
@@ -549,7 +549,7 @@ Proof.
   intros Hs Hg Hdq. apply Forall_forall. intros x Hx.
   destruct (spec_attrs_origin ats [] E Hs x Hx) as [[]|[a [Ha [Hk Hat]]]].
   rewrite forallb_forall in Hg, Hdq. pose proof (Hg a Ha) as Hga. pose proof (Hdq a Ha) as Hda.
-  unfold sattr_ok in Hga. apply andb_true_iff in Hga as [Hga Hck]. apply andb_true_iff in Hga as [Hga _].
+  unfold sattr_ok in Hga. apply andb_true_iff in Hga as [Hga Hck].
   apply andb_true_iff in Hga as [Hga Hnn]. apply andb_true_iff in Hga as [Hga _].
   apply andb_true_iff in Hga as [_ Hvn]. apply negb_true_iff in Hnn.
   destruct a as [qa v]. cbn [fst snd] in *.
@@ -562,7 +562,7 @@ Proof. unfold nil_filter. destruct content; [apply from_value_filter|tauto]. Qed
 
 Lemma elem_says u0 pm m q ats ks e :
   Forall (kid_says u0) ks ->
-  minv u0 pm -> minv u0 m -> ext pm m -> env_is e pm ->
+  (pm = [] \/ minv u0 pm) -> minv u0 m -> ext pm m -> env_is e pm ->
   sg_node u0 q ats ks = true -> forallb (sguard u0) ks = true ->
   exists x ds a k, denote (INode q ats ks) = [x]
                    /\ wref_elem wref pm [] m q ats ks = SNode ds q a k
@@ -658,7 +658,7 @@ Proof.
   induction i as [v|q ats ks IH] using item_ind2; intros m e Hinv He Hg.
   - intros Hq. cbn [sguard all_nodes] in Hg. exact (data_says u0 m e v Hinv He Hg Hq).
   - cbn [sguard all_nodes] in Hg. apply andb_true_iff in Hg as [Hn Hk].
-    destruct (elem_says u0 m m q ats ks e IH Hinv Hinv (ext_refl m) He Hn Hk) as [x [ds [a [k [Hd [Hw Hs]]]]]].
+    destruct (elem_says u0 m m q ats ks e IH (or_intror Hinv) Hinv (ext_refl m) He Hn Hk) as [x [ds [a [k [Hd [Hw Hs]]]]]].
     exists x, ds, q, a, k. split; [exact Hd|split; [|exact Hs]]. cbn [wref]. rewrite Hw. reflexivity.
 Qed.
 
@@ -672,7 +672,7 @@ Proof.
   intros Hu Hg. cbn [sguard all_nodes] in Hg. apply andb_true_iff in Hg as [Hn Hk].
   apply (elem_says u0 [] user q ats ks []); try assumption.
   - apply Forall_forall. intros k _. apply kid_says_all.
-  - apply minv_nil.
+  - left. reflexivity.
   - intros p u H. discriminate.
   - apply env_is_nil.
 Qed.
